@@ -94,7 +94,8 @@ def oracle(case):
             j = first(bad)
             viol.append(V("residual_outside_0_to_output", solver=tag, bin=j, res=float(a[j]), out=float(asd_out[j]), K=int(K[j]), q=q))
         if static:
-            bad = strong & (a > 1e-5 * asd_out) & (a * a > cancel_floor * asd_out ** 2)
+            floor = cancel_floor * (condk if tag == "analytic" else 1.0)
+            bad = strong & (a > 1e-5 * asd_out) & (a * a > floor * asd_out ** 2)
             if bad.any():
                 j = first(bad)
                 viol.append(V("static_combination_not_cancelled", solver=tag, bin=j, res=float(a[j]), out=float(asd_out[j]), q=q))
@@ -125,10 +126,13 @@ def oracle(case):
             A[:, j, i] = np.asarray(pij.Gxy)
     a_ref = np.zeros(nf)
     cancel_floor = np.zeros(nf)
+    condk = np.ones(nf)     # the closed-form ("analytic") solver expands determinants: its error grows like eps * cond^2
+                            # (seen on the repaired tree: 1.6e-3 of S00 at cond 9e6, q=4, inputs with common pedestals)
     for k in np.nonzero(strong)[0]:
         with np.errstate(all="ignore"):
             ck = float(np.linalg.cond(A[k]))
         cancel_floor[k] = 256.0 * np.finfo(float).eps * (ck if np.isfinite(ck) else 1e300)
+        condk[k] = ck if np.isfinite(ck) else 1e300
     bounds(a_num, "numeric")
     for k in np.nonzero(strong)[0]:
         sol = np.linalg.solve(A[k], sv[k])
@@ -137,7 +141,7 @@ def oracle(case):
     if case["analytic"]:
         _, a_ana = systems.MISO_analytic_optimal_spectral_analysis(inputs, out, fs, **kw)
         bounds(a_ana, "analytic")
-        same(a_ana, a_num, "analytic_vs_numeric")
+        same(a_ana, a_num, "analytic_vs_numeric", fac=condk)
     if q > 1:
         perm = rng.permutation(q)
         if np.array_equal(perm, np.arange(q)):
